@@ -12,7 +12,8 @@ from pathlib import Path
 
 VERIF = Path(__file__).resolve().parent.parent
 SPECS = VERIF / "specs"
-WORK = VERIF / ".work"
+# one scratch directory per top-level check process (forked workers inherit it), so that checks can run side by side
+WORK = VERIF / ".work" / f"p{os.getpid()}"
 JARS = "/opt/veriftools/tla/tla2tools.jar:/opt/veriftools/tla/CommunityModules-deps.jar"
 
 
@@ -67,7 +68,7 @@ class TLCResult:
 
 
 def workdir() -> Path:
-    WORK.mkdir(exist_ok=True)
+    WORK.mkdir(parents=True, exist_ok=True)
     return Path(tempfile.mkdtemp(prefix="w", dir=WORK))
 
 
